@@ -68,6 +68,21 @@ class HookScript:
         return self.outcome == 'true'
 
 
+class FailingCloseStream:
+    def __init__(self, n):
+        self.left = n
+        self.closed = 0
+
+    def __call__(self, data):
+        pass
+
+    def close(self):
+        if self.left > 0:
+            self.left -= 1
+            raise OSError(28, 'No space left on device')
+        self.closed += 1
+
+
 def make_watcher(world, conf):
     from circus.watcher import Watcher
     kw = {k: conf[k] for k in WATCHER_KEYS if k in conf and not (k == 'working_dir' and conf[k] is None)}
@@ -81,6 +96,9 @@ def make_watcher(world, conf):
         kw['stdout_stream'] = {'class': 'QueueStream'}
         if conf.get('capture') == 'both':
             kw['stderr_stream'] = {'class': 'QueueStream'}
+    if conf.get('close_fails'):
+        # an output stream whose close() fails the first N times (a log file on a full disk: ENOSPC at the last flush)
+        kw['stdout_stream'] = {'stream': FailingCloseStream(conf['close_fails'])}
     cmd = conf.get('cmd', tag_of(conf['name']))
     world.confs[tag_of(conf['name'])] = conf
     return Watcher(conf['name'], cmd, **kw)
